@@ -98,3 +98,10 @@ func (tp *TxPool) VerifTx(h bc.Hash) *types.Tx {
 	}
 	return nil
 }
+
+// VerifSetOrphanLimit overrides the orphan pool capacity (package variable) and returns the old value.
+func VerifSetOrphanLimit(n int) int {
+	old := numOrphanBlockLimit
+	numOrphanBlockLimit = n
+	return old
+}
